@@ -459,6 +459,7 @@ fn enumerate(ctx: &Ctx, rep: &mut Report) {
             let mut out = CaseOut::new();
             let (n, _) = run_scenario(&sc, &mut out);
             total += 1;
+            crate::engine::PROGRESS.fetch_add(1, std::sync::atomic::Ordering::Relaxed);
             if n > 0 {
                 with_meas += 1;
                 rep.nontrivial.insert(hash_of(&("enum", len, code)));
